@@ -40,11 +40,13 @@ def check(prop, tier, replay=None):
     rng = random.Random(run.seed * 7 + 18)
     n = 12 if tier == "quick" else 300
     jobs = []
-    for name in ("trees", "dags", "chain_subslot", "teams_alts", "infeasible"):
+    for name in ("trees", "dags", "chain_subslot", "teams_alts", "infeasible", "dup_leaf_ids"):
         for pid, p in getattr(gen, name)(rng, n):
             for r in p.res:
                 if not r.kids and rng.random() < 0.7:
                     r.rate = rng.choice([10, 55.5, 120, 33.33])
+            if rng.random() < 0.5:
+                p = gen.renamed(p, rng, reuse_across_parents=True)      # same leaf id under different containers
             p.extra = report_defs(rng, 3)
             jobs.append({"id": "C18-" + pid, "text": p.render()})
     if replay:
